@@ -526,6 +526,70 @@ theorem CostModel.vehicleCosts_sum_weights (m : CostModel α) (hs : m.agg = .sum
   rw [hs, agg_sum]
   rfl
 
+/-! ### per-turn tables and the charged edge total -/
+
+mutual
+/-- the network rate with every edge-pair (per-turn) table removed -/
+def NetworkCostRate.dropTurn : NetworkCostRate α → NetworkCostRate α
+  | .zero => .zero
+  | .edgeLookup t => .edgeLookup t
+  | .edgeEdgeLookup _ => .zero
+  | .combined rs => .combined (NetworkCostRate.dropTurnList rs)
+def NetworkCostRate.dropTurnList : List (NetworkCostRate α) → List (NetworkCostRate α)
+  | [] => []
+  | r :: rs => r.dropTurn :: NetworkCostRate.dropTurnList rs
+end
+
+mutual
+theorem NetworkCostRate.traversalCost_dropTurn :
+    ∀ (r : NetworkCostRate α) (e : Nat), r.dropTurn.traversalCost e = r.traversalCost e
+  | .zero, e => by simp [NetworkCostRate.dropTurn]
+  | .edgeLookup t, e => by simp [NetworkCostRate.dropTurn]
+  | .edgeEdgeLookup t, e => by simp [NetworkCostRate.dropTurn, NetworkCostRate.traversalCost]
+  | .combined rs, e => by
+    simp only [NetworkCostRate.dropTurn, NetworkCostRate.traversalCost]
+    exact NetworkCostRate.traversalCostList_dropTurn rs e _
+theorem NetworkCostRate.traversalCostList_dropTurn :
+    ∀ (rs : List (NetworkCostRate α)) (e : Nat) (acc : α),
+      NetworkCostRate.traversalCostList (NetworkCostRate.dropTurnList rs) e acc
+        = NetworkCostRate.traversalCostList rs e acc
+  | [], e, acc => by simp [NetworkCostRate.dropTurnList]
+  | r :: rs, e, acc => by
+    simp only [NetworkCostRate.dropTurnList, NetworkCostRate.traversalCostList]
+    rw [NetworkCostRate.traversalCost_dropTurn r e, NetworkCostRate.traversalCostList_dropTurn rs e]
+end
+
+/-- the cost model with every per-turn table removed from its network rates -/
+def CostModel.dropTurns (m : CostModel α) : CostModel α :=
+  { m with networkRates := m.networkRates.map NetworkCostRate.dropTurn }
+
+theorem CostModel.traversalCost_dropTurns (m : CostModel α) (e : Nat) (prev next : List α) :
+    m.dropTurns.traversalCost e prev next = m.traversalCost e prev next := by
+  have hterm : ∀ i, m.dropTurns.networkTraversalTerm prev next e i = m.networkTraversalTerm prev next e i := by
+    intro i
+    unfold CostModel.networkTraversalTerm CostModel.dropTurns
+    simp only [List.getElem?_map]
+    cases prev[i]? <;> cases next[i]? <;> cases m.weights[i]? <;> cases m.networkRates[i]? <;>
+      simp [NetworkCostRate.traversalCost_dropTurn]
+  have hv : m.dropTurns.vehicleCosts prev next = m.vehicleCosts prev next := rfl
+  have hn : m.dropTurns.networkTraversalCosts prev next e = m.networkTraversalCosts prev next e := by
+    unfold CostModel.networkTraversalCosts
+    have : m.dropTurns.indices.map (m.dropTurns.networkTraversalTerm prev next e)
+        = m.indices.map (m.networkTraversalTerm prev next e) :=
+      List.map_congr_left (fun i _ => hterm i)
+    rw [this]; rfl
+  unfold CostModel.traversalCost CostModel.traversalTotal
+  rw [hv, hn]
+
+
+/-- the per-turn surcharge the configuration prescribes for the record's edge pair, weighted: `0`
+without neighbouring edge -/
+def turnSurcharge (m : CostModel α) (pair : Option (Nat × Nat)) : α :=
+  match pair with
+  | none => 0
+  | some (pe, ne) => (m.indices.map fun i => m.wt i * (m.nr i).accessCost pe ne).sum
+
+
 end
 
 end Compass
